@@ -1270,7 +1270,9 @@ def reconcile_render(ctx, cases, impl_out, model_out, pid):
             impl2[i] = model_out[i]
             ctx.count("render=equal-up-to-redundant-parentheses")
             continue
-        if reading_real != intended and reading_real != "noparse":
+        if reading_real != intended and reading_real != "noparse" and _strip_parens(real) == _strip_parens(model):
+            # same tokens as the model's text, parenthesised differently, and read by the grammar
+            # as another tree than the one the expression means
             failures.append(
                 {
                     "case": {"u": cases[i]["u"], "dialect": cases[i]["dialect"], "mode": "model-level"},
